@@ -86,6 +86,7 @@ impl Runner {
             "implementation": impl_as_result(&ir).pretty(), "model": model.pretty()});
         let mut model_res = None;
         match result_parts(&model) {
+            None if model.as_atom() == Some("model-too-slow") => rep.count("model-comparison-given-up:time-budget"),
             None => rep.fail("disagreement", &format!("{} {} model did not return a result: {}", p, mode, model.to_text().chars().take(60).collect::<String>()), false, replay),
             Some((mo, mg, _)) => {
                 model_res = Some(model.clone());
@@ -134,6 +135,15 @@ pub fn campaign(
         };
         for ti in 0..trees_per {
             let source = gen_source(&mut r, small_sources || ti % 2 == 1, false);
+            let source = if ti == 0 { crate::props::common::wide_source_for(&loaded.program).unwrap_or(source) } else { source };
+            // one program in six also runs on a source full of aliased nodes (their `kind` is the alias, everywhere)
+            let source = if ti + 1 == trees_per && pi % 6 == 4 {
+                let src = crate::gen::python::ALIASED[(pi / 6) % crate::gen::python::ALIASED.len()].to_string();
+                let tree = crate::tree::parse_python(&src);
+                crate::props::common::Source { src, tree }
+            } else {
+                source
+            };
             let (info, mi) = export(&loaded.file, &source);
             runner.set_tree(&info, &source.src);
             // the oracle table travels with every request: keep it per case
